@@ -48,6 +48,16 @@ pub mod verif {
         crate::relayer::verif_block_transactions_verify(block, indexes, transactions)
     }
 
+    /// the decode-boundary predicate `Synchronizer::received` applies to a SendBlock
+    pub fn send_block_is_malformed(reader: &packed::SendBlockReader) -> bool {
+        crate::utils::send_block_is_malformed(reader)
+    }
+
+    /// the decode-boundary predicate `Relayer::received` applies to a CompactBlock
+    pub fn compact_block_is_malformed(reader: &packed::CompactBlockReader) -> bool {
+        crate::utils::compact_block_is_malformed(reader)
+    }
+
     /// `BlockUnclesVerifier::verify`
     pub fn block_uncles_verify(
         block: &packed::CompactBlock,
